@@ -85,6 +85,42 @@ CLAIMED['C13'] = dict(
          'spacing of non-default layouts are not fixed by the statement and are not compared.',
     technique='TLA+ transcription of hexdump/parse model-checked for the round trip in small bounds + TLC-judged results of the real functions')
 
+CLAIMED['C01'] = dict(
+    text='PelDecoder.tla models parsePEL (headers, count-driven section loop, buildOutput naming) over abstract PELs and '
+         'every truncation point; TLC checks Framing, the naming rule (PelNaming: two-pass implementation vs the '
+         '"numbered iff repeated" rule), PrefixRejected, termination over 76k initial configurations, and '
+         'SrcCallouts.tla (the peek-driven callout walk) for NoDesync / WalkExact whatever follows the callout.  TLC then '
+         'emits every sequence of <= 3 section kind classes (12 classes incl. the ids that collide with callout tags); '
+         'each is filled, encoded and decoded by the real parsePEL through a traced cursor and the sectionFun seam, '
+         'plus long PELs (up to 253 optional sections) and all creator ids; TLC judges EncoderAgrees (the harness '
+         'encoder against PelFormat!Encode), Names, OneEntryPerSection, Compositional, Cursor and Boundaries.',
+    design='DESIGN.md 4.2, 4.4, 4.5, 5 C01',
+    note='Trusted: TLC, PelFormat.tla as the statement of the layout.  Value space sampled, structure exhaustive to the '
+         'bound.  PH/UH ids are not placed in optional positions.',
+    technique='TLC model checking of PelDecoder.tla / SrcCallouts.tla + TLC-enumerated PEL structures replayed into the real decoder, observations judged by TLC')
+CLAIMED['C02'] = dict(
+    text='PelDisplay.tla states, per displayed field, what the tool must show for the Private/User Header, Extended User '
+         'Header, Failing MTMS and Impacted Partition sections (BCD times, numeric ids, NUL stripping, published tables '
+         'with fallbacks, action-flag set, every target id); TLC checks the action-flag rule for all 65536 words and field '
+         'independence of the Private Header.  Generated PELs with every coded byte swept through all 256 values, id '
+         'boundaries, 0..255 targets / name and symptom lengths, all creator ids are decoded by the real parsePEL and '
+         'TLC compares every field (one clause per field) after a mechanical projection.',
+    design='DESIGN.md 4.1, 5 C02, Appendix A',
+    note='The spec acts as an executable reference under TLC (encode/decode fidelity is not a protocol property).  Ids are '
+         'compared numerically, timestamps and text literally.  PelTables.tla is a static transcription of the published tables.',
+    technique='TLA+ reference of the display rules (PelDisplay.tla) evaluated by TLC on records from the real decoder; small exhaustive TLC checks of the rules')
+CLAIMED['C03'] = dict(
+    text='PelDisplay!ShowSRC / ShowCallout state what must be shown for an SRC (words 2..count, format, flags, CCIN, '
+         'status bits by SRC type, reference code, every callout field, Callout Count, registry message); SrcCallouts.tla '
+         'is model-checked for the walk (count, order, no desynchronisation).  TLC enumerates all 960 callout shapes; the '
+         'harness composes SRC sections from them (all types, word counts 1..9, flag bits, distinguishable words), runs '
+         'the real decoder with and without registry entries (installed through src.registry.pels / '
+         'comp_id.componentIDs) and TLC compares field by field, callout by callout, plus the filled message.',
+    design='DESIGN.md 4.5, 5 C03, Appendix A',
+    note='Executable-reference use of the spec.  Every generated callout has a FRU identity; registry placeholders are in '
+         'order; plugins are off (C18 covers SRC Details / procedure descriptions).',
+    technique='TLC model checking of SrcCallouts.tla + TLC-enumerated callout shapes replayed into the real decoder, display judged by TLC against PelDisplay.tla')
+
 REASON_NOT_YET = 'check not built yet in this session (planned per DESIGN.md 5); not claimed until its TLC-judged check runs green on the unchanged tree'
 
 
